@@ -134,8 +134,10 @@ func checkC01(c *Ctx) {
 		checkCallSignature(c, "C01.R12.call-signature", ev)
 	}
 	checkFoldedPatterns(c, "C01.R13.folded-names", gen)
+	checkValidationLifts(c, "C01.R15.validation-lifts", gen)
 	if c.Contrib == "" {
 		checkGeneratedCalls(c, "C01.R12.generated-calls", ev)
+		checkPointerMarkers(c, "C01.R12.pointer-markers", ev)
 	}
 	checkVersionedImports(c, "C01.R14.versioned-imports", gen)
 
@@ -981,4 +983,61 @@ func checkVersionedImports(c *Ctx, rule string, gen *packages.Package) {
 	})
 	c.Check(found && ok, rule, "generator.GoLangOpts › ImportsFunc › …/vN imports are aliased", c.posOf(gen, lit.Pos()), "the bare form is not used when the last path element matches the version pattern",
 		"ImportsFunc emits a bare import for a path ending in /vN: goimports resolves its package name from the target directory, so the first generation into an empty target drops the import (code that does not compile) and a second run differs")
+}
+
+
+// checkValidationLifts: HasValidations makes the templates emit a Validate call on the member.
+// io.ReadCloser aliases (streams) and interface{} have no Validate method: every condition that
+// lifts HasValidations for a $ref'ed / aliased / complex member and excludes interfaces must exclude
+// streams in the same breath (12 of 12 sites do on the reviewed tree).
+func checkValidationLifts(c *Ctx, rule string, gen *packages.Package) {
+	c.Rule(rule, "a condition under which HasValidations is set to true and that excludes IsInterface also excludes IsStream", 6)
+	n := 0
+	ord := map[string]int{}
+	for _, fd := range load.AllFuncs(gen) {
+		fd := fd
+		ast.Inspect(fd.Body, func(nd ast.Node) bool {
+			ifs, ok := nd.(*ast.IfStmt)
+			if !ok {
+				return true
+			}
+			sets := false
+			for _, st := range ifs.Body.List {
+				if as, ok := st.(*ast.AssignStmt); ok && len(as.Lhs) == 1 && len(as.Rhs) == 1 {
+					if ln := goan.LastSel(as.Lhs[0]); (ln == "HasValidations" || ln == "hasValidations" || ln == "hasValidation" || ln == "hv") && goan.IsIdent(as.Rhs[0], "true") {
+						sets = true
+					}
+				}
+			}
+			if !sets {
+				return true
+			}
+			// the condition excludes interfaces (a negation whose operand mentions IsInterface)
+			excludes := false
+			ast.Inspect(ifs.Cond, func(m ast.Node) bool {
+				if un, ok := m.(*ast.UnaryExpr); ok && un.Op == token.NOT && strings.Contains(goan.ExprString(un.X), "IsInterface") {
+					excludes = true
+				}
+				return true
+			})
+			if !excludes {
+				return true
+			}
+			n++
+			streams := false
+			ast.Inspect(ifs.Cond, func(m ast.Node) bool {
+				if un, ok := m.(*ast.UnaryExpr); ok && un.Op == token.NOT && strings.Contains(goan.ExprString(un.X), "IsStream") {
+					streams = true
+				}
+				return true
+			})
+			ord[load.FuncName(fd)]++
+			c.Check(streams, rule, fmt.Sprintf("generator.%s › HasValidations lift #%d excludes streams with interfaces", load.FuncName(fd), ord[load.FuncName(fd)]), c.posOf(gen, ifs.Pos()), "streams excluded together with interfaces",
+				"the lift of HasValidations under `"+goan.ExprString(ifs.Cond)+"` excludes interface{} members but not streams: a member that is (an alias of) io.ReadCloser gets a Validate call that does not compile")
+			return true
+		})
+	}
+	if n < 6 {
+		c.Unk(rule, "generator › HasValidations lifts", "", fmt.Sprintf("%d conditions found", n))
+	}
 }
